@@ -205,8 +205,8 @@ def cli_run(root, argv, ncpu, hashseed, threshold=None, timeout=300):
                 VERIF_NCPU=str(ncpu), VERIF_REPO=env.REPO)
     if threshold is not None:
         envv["VERIF_THRESHOLD"] = str(threshold)
-    p = subprocess.run([sys.executable, DRIVER] + argv, capture_output=True, text=True, timeout=timeout, env=envv)
-    return p.returncode, lcd.strip_ts(p.stdout), p.stderr[-2000:]
+    rc, out, err = batch.run_process_group([sys.executable, DRIVER] + argv, timeout, envv)
+    return (rc if rc is not None else -9), lcd.strip_ts(out), err[-2000:]
 
 
 def repeat_job(job):
